@@ -317,11 +317,11 @@ func (e *agentEngine) Setup(r *Run) {
 		e.times[0] = time.Time{} // the zero time is just the earliest instant
 	}
 	if r.Pct(20, "far-future") {
-		e.times[len(e.times)-1] = time.Date(9999, 12, 31, 23, 59, 59, 0, time.UTC) // a "never" deadline
+		e.times[e.nT-1] = time.Date(9999, 12, 31, 23, 59, 59, 0, time.UTC) // a "never" deadline (the latest instant in use)
 	}
 	if r.Pct(20, "close-times") {
 		// instants one nanosecond apart: the comparison must be exact
-		for i := 1; i < len(e.times)-1; i++ {
+		for i := 1; i < e.nT-1; i++ {
 			e.times[i] = base.Add(time.Duration(i))
 		}
 	}
@@ -449,6 +449,7 @@ func (e *agentEngine) drawOp(nested bool) aInput {
 		w[k] = e.mix[k]
 	}
 	if nested {
+		w[aCollect] *= 4 // overlapping collections are the interesting re-entrancy
 		w[aClose] = 0
 		if r.Pct(5, "nested-close") {
 			w[aClose] = 2
